@@ -54,14 +54,14 @@ func DisturbParse() {
 	}()
 }
 
-const leakNames = "a = \"LEAK-a\"\nb = \"LEAK-b\"\nc = \"LEAK-c\"\nd = \"LEAK-d\"\nk1 = \"LEAK-k1\"\nk2 = \"LEAK-k2\"\nx = \"LEAK-x\"\ny = \"LEAK-y\"\nz = \"LEAK-z\"\nv = \"LEAK-v\"\nw = \"LEAK-w\"\ni = \"LEAK-i\"\nj = \"LEAK-j\"\nt = \"LEAK-t\"\ns = \"LEAK-s\"\nl = [\"LEAK-l\"]\nm = {\"LEAK\": \"m\"}\nmessage = \"LEAK-message\"\nf = \"LEAK-f\"\ng = \"LEAK-g\"\nn = \"LEAK-n\"\ne = \"LEAK-e\"\nadd_key(leak_field, \"LEAK\")\n"
+const leakNames = "a = \"LEAK-a\"\nb = \"LEAK-b\"\nc = \"LEAK-c\"\nd = \"LEAK-d\"\nk1 = \"LEAK-k1\"\nk2 = \"LEAK-k2\"\nx = \"LEAK-x\"\ny = \"LEAK-y\"\nz = \"LEAK-z\"\nv = \"LEAK-v\"\nw = \"LEAK-w\"\ni = \"LEAK-i\"\nj = \"LEAK-j\"\nt = \"LEAK-t\"\ns = \"LEAK-s\"\nl = [\"LEAK-l\"]\nm = {\"LEAK\": \"m\"}\nmessage = \"LEAK-message\"\nf = \"LEAK-f\"\ng = \"LEAK-g\"\nn = \"LEAK-n\"\ne = \"LEAK-e\"\np1 = \"LEAK-p1\"\np2 = \"LEAK-p2\"\nr = \"LEAK-r\"\nk = \"LEAK-k\"\nk2 = \"LEAK-k2\"\nkx = \"LEAK-kx\"\nkeep = \"LEAK-keep\"\nout = \"LEAK-out\"\nts = \"LEAK-ts\"\nsrc = \"LEAK-src\"\nq = \"LEAK-q\"\nn1 = \"LEAK-n1\"\nf1 = \"LEAK-f1\"\nt1 = \"LEAK-t1\"\nother = \"LEAK-other\"\ntotal = \"LEAK-total\"\npk = \"LEAK-pk\"\nacc = \"LEAK-acc\"\nthreshold = 7\nunit = \"LEAK-unit\"\nadd_key(leak_field, \"LEAK\")\n"
 
 var disturbSrc = map[string]string{
-	"d0.p": leakNames + "if true {\n  q = 1\n  r = [1][5]\n}\n",
-	"d1.p": leakNames + "for i = 0; i < 3; i = i + 1 {\n  q = i\n  if i == 1 { r = {\"k\": 1}[\"k\"][0] }\n}\n",
+	"d0.p": leakNames + "l5 = [1]\nif true {\n  q = 1\n  r = l5[5]\n}\n",
+	"d1.p": leakNames + "mk = {\"k\": 1}\nfor i = 0; i < 3; i = i + 1 {\n  q = i\n  if i == 1 { r = mk[\"k\"][0] }\n}\n",
 	"d2.p": leakNames + "for q in [1, 2, 3] {\n  if q == 2 { exit() }\n}\n",
 	"d3.p": leakNames + "for q in \"abc\" {\n  for r in [1, 2] {\n    if r == 2 { break }\n    continue\n  }\n  u = 1 / (len(q) - 1)\n}\n",
-	"d4.p": leakNames + "add_pattern(\"leakpat\", \"[a-z]+\")\nif true {\n  add_pattern(\"leakin\", \"\\\\d+\")\n  grok(_, \"%{leakpat:leak_g} %{leakin:leak_n}\")\n  x = 1 % 0\n}\n",
+	"d4.p": leakNames + "add_pattern(\"leakpat\", \"[a-z]+\")\nif true {\n  add_pattern(\"leakin\", \"\\\\d+\")\n  grok(_, \"%{leakpat:leak_g} %{leakin:leak_n}\")\n  z0 = 0\n  x = 1 % z0\n}\n",
 	"d5.p": leakNames + "use(\"d0.p\")\n",
 	"d6.p": leakNames + "for i = 0; i < 20000; i = i + 1 {\n  q = 1\n}\n",
 }
@@ -95,4 +95,7 @@ func DisturbRun() {
 }
 
 // DisturbCount reports how many disturbance scripts loaded (for evidence).
-func DisturbCount() int { return len(disturbScripts) }
+func DisturbCount() int {
+	DisturbRun()
+	return len(disturbScripts)
+}
